@@ -239,14 +239,14 @@ func init() {
 
 func TestC19(t *testing.T) {
 	r, e := start(t, "C19",
-		"invocations of the tsh binary built from the current tree: the -i/--in, -o/--out, -t/--type pairs in every order and spelling, 1-4 targets in any order with repetitions, input names (a.tsh, a.b.c.tsh, noext, 'sp ace.tsh', .hidden.tsh, directories with dots), accepted programs (incl. imports relative to the input and std beside the binary) and rejected ones (lexical, syntax, type errors, missing import), bad invocations (unknown switch/target, missing -i/-o/-t, missing value, missing input, input is a directory, output missing / a file), output directory pre-populated with decoys and stale outputs. Oracle: exit status; every requested target's file holds exactly the bytes the library returns in process; nothing else in the tree changes; on failure the failing target's file is untouched. Non-trivial = two or more targets, a repeated target, an unusual file name or a failing run; distinct by invocation + sources.",
+		"invocations of the tsh binary built from the current tree: the -i/--in, -o/--out, -t/--type pairs in every order and spelling, 1-4 targets in any order with repetitions, input names (a.tsh, a.b.c.tsh, noext, 'sp ace.tsh', .hidden.tsh, one-character x, -.tsh, a.tsh.tsh, directories with dots), accepted programs (incl. imports relative to the input and std beside the binary) and rejected ones (lexical, syntax, type errors, missing import), bad invocations (unknown switch/target, missing -i/-o/-t, missing value, missing input, input is a directory, output missing / a file), output directory pre-populated with decoys and stale outputs. Oracle: exit status; every requested target's file holds exactly the bytes the library returns in process; nothing else in the tree changes; on failure the failing target's file is untouched. Non-trivial = two or more targets, a repeated target, an unusual file name or a failing run; distinct by invocation + sources.",
 		[]string{"targets converted successfully before a failing target may already have been written (the statement only speaks about the failing target)", "stray trailing arguments are not asserted"})
 	defer r.Flush()
 	_ = e
 	gcfg := gen.Cfg{MaxStmts: 10, MaxDepth: 2, ExprDepth: 2, Funcs: true, MaxFuncs: 2, Slices: true, StrOps: true, LoopBudget: 4, IO: true, Panics: true, ErrSpell: true, BareExpr: true}
 	checkRapid(t, r, func(t *rapid.T) {
 		c := cliCase{Kind: "cli", Property: "C19", Files: map[string]string{}, Pre: map[string]string{}}
-		name := []string{"a.tsh", "a.b.c.tsh", "noext", "sp ace.tsh", ".hidden.tsh", "prog.tsh", "UPPER.TSH", "x.y"}[gen.Uniform(0, 7).Draw(t, "name")]
+		name := []string{"a.tsh", "a.b.c.tsh", "noext", "sp ace.tsh", ".hidden.tsh", "prog.tsh", "UPPER.TSH", "x.y", "x", "-.tsh", "a.tsh.tsh", "tsh"}[gen.Uniform(0, 11).Draw(t, "name")]
 		dir := []string{"src", "src/dir.d", "s p", "."}[gen.Uniform(0, 3).Draw(t, "dir")]
 		c.In = filepath.Join(dir, name)
 		c.Out = []string{"out", "o.d/deep", "out put"}[gen.Uniform(0, 2).Draw(t, "out")]
